@@ -287,6 +287,12 @@ MUTANTS: List[Dict] = [
     M("total7-recursive-dfs", "breaking", SCFG, "        seen = set()\n        to_vist = list(self.graph[begin].jump_targets)\n        while True:", "        def visit(b: str, seen_: set) -> bool:  # type: ignore\n            if b == end:\n                return True\n            if b in seen_ or b not in self.graph:\n                return False\n            seen_.add(b)\n            return any(visit(t, seen_) for t in self.graph[b].jump_targets)\n\n        if any(visit(t, set()) for t in self.graph[begin].jump_targets):\n            return True\n        return False\n        seen = set()\n        to_vist = list(self.graph[begin].jump_targets)\n        while True:", ["TOTAL-7"]),
     M("lower11-lookup-cache", "breaking", AT, "    def lookup(self, item: Any) -> Any:\n        subregion_scfg = self.region_stack[-1].subregion\n", "    def lookup(self, item: Any) -> Any:\n        if not hasattr(self, \"resolved\"):\n            self.resolved = {}\n        if item in self.resolved:\n            return self.resolved[item]\n        subregion_scfg = self.region_stack[-1].subregion\n        self.resolved[item] = None\n", ["LOWER-11"]),
     M("iter1-gate-at-enqueue", "breaking", SCFG, "            if name in seen:\n                continue\n            else:\n                seen.append(name)\n", "            seen.append(name)\n", ["ITER-1"]),
+    M("name4-no-variable-seeding", "breaking", SCFG, '            names.append(block.get("variable", ""))\n', "", ["NAME-4"], "control variables of branching blocks are not seen when seeding"),
+    M("name4-regex-args-swapped", "breaking", SCFG, '                r"__scfg_(.+)_var_(\\d+)__|(.+)_(?:block|region)_(\\d+)",\n                str(name),\n', '                str(name),\n                r"__scfg_(.+)_var_(\\d+)__|(.+)_(?:block|region)_(\\d+)",\n', ["NAME-4"]),
+    M("ok-seed-plus-two", "benign", SCFG, "                    name_gen.kinds.get(kind, 0), index + 1\n", "                    name_gen.kinds.get(kind, 0), index + 2\n", [], "a gap in the numbering keeps names fresh"),
+    M("disp8-no-descend", "breaking", SCFG, "                q.extend(value.subregion.graph.items())\n", "", ["DISP-8"]),
+    M("disp8-contains-unsorted", "breaking", SCFG, '                blocks[key]["contains"] = sorted(\n                    [idx.name for idx in value.subregion.graph.values()]\n                )\n', '                blocks[key]["contains"] = list(\n                    [idx.name for idx in value.subregion.graph.values()]\n                )\n', ["DISP-8"]),
+    M("total8-inverted-narrowing", "breaking", SCFG, "                assert value.subregion is not None\n                assert value.parent_region is not None\n                q.extend(", "                assert value.subregion is None\n                assert value.parent_region is not None\n                q.extend(", ["TOTAL-8"]),
     # ------------------------------------------------ benign
     M("ok-rename-locals", "benign", TR, None, None, [], "rename locals of loop_restructure_helper (computed edit)"),
     M("ok-sorted-key", "benign", TR, "    for name in sorted(loop):\n", "    for name in sorted(loop, key=str):\n", []),
